@@ -292,6 +292,7 @@ struct HoleDirs {
     nosig: bool,
     probe: Option<String>,
     split: Option<BTreeMap<String, String>>,
+    snaps: Vec<(String, String)>,
 }
 
 fn parse_quoted(s: &str) -> R<(String, &str)> {
@@ -320,7 +321,7 @@ fn parse_quoted(s: &str) -> R<(String, &str)> {
 
 fn parse_dirs(lines: &[&str]) -> R<HoleDirs> {
     // join continuation lines: a directive starts with a keyword at line start (after trim)
-    let kws = ["subst ", "closure ", "loop ", "before ", "after ", "replace ", "selfname ", "nosig", "probe ", "hint ", "split "];
+    let kws = ["subst ", "closure ", "loop ", "before ", "after ", "replace ", "selfname ", "nosig", "probe ", "hint ", "split ", "snap "];
     let mut items: Vec<String> = Vec::new();
     for l in lines {
         let t = l.trim();
@@ -365,6 +366,9 @@ fn parse_dirs(lines: &[&str]) -> R<HoleDirs> {
                 }
             }
             d.split = Some(m);
+        } else if let Some(rest) = it.strip_prefix("snap ") {
+            let (k, v) = rest.split_once('=').ok_or_else(|| Bail(format!("bad snap {rest}")))?;
+            d.snaps.push((k.trim().to_string(), v.trim().to_string()));
         } else if let Some(rest) = it.strip_prefix("selfname ") {
             d.self_name = Some(rest.trim().to_string());
         } else if let Some(rest) = it.strip_prefix("closure ") {
@@ -602,9 +606,13 @@ fn template_sig_key(sig_text: &str) -> R<String> {
     let mut ins: Vec<String> = Vec::new();
     let mut cur: Vec<TokenTree> = Vec::new();
     let mut angle = 0;
+    let mut prev_dash = false;
     for tt in params.stream() {
+        let was_dash = prev_dash;
+        prev_dash = matches!(&tt, TokenTree::Punct(p) if p.as_char() == '-');
         match &tt {
             TokenTree::Punct(p) if p.as_char() == '<' => angle += 1,
+            TokenTree::Punct(p) if p.as_char() == '>' && was_dash => {}
             TokenTree::Punct(p) if p.as_char() == '>' => angle -= 1,
             TokenTree::Punct(p) if p.as_char() == ',' && angle == 0 => {
                 ins.push(norm_tokens(cur.drain(..).collect()));
@@ -717,6 +725,10 @@ fn transform_body(
     }
     if mut_self {
         let _ = write!(prefix, "let mut {this} = self; ");
+    }
+    // ghost snapshots of entry values (for hints that must mention the initial value of a `mut` parameter)
+    for (k, v) in &dirs.snaps {
+        let _ = write!(prefix, "let ghost {k} = {v}; ");
     }
     // `{self:?}`-style inline format args only occur inside T5-dropped macros; nothing else to do.
 
